@@ -8,6 +8,8 @@ INVARIANT InitialKept
 INVARIANT PastKept
 INVARIANT SameLength
 INVARIANT Covered
+INVARIANT LateHoldsInitial
 PROPERTY PrefixKept
 PROPERTY ChangeTouchesOnlyItsSlot
+PROPERTY StartNeverGenerated
 CHECK_DEADLOCK FALSE
